@@ -149,7 +149,10 @@ def run_case(case):
             return None
         if klass in ("no", "occ", "occ_indirect", "no_or_occ"):
             if succ:
-                return viol("unify:%s:%s-succeeds" % (route, klass), "%s via %s succeeds with %s but the terms are %s" % (
+                kfc = ""
+                if route in ("fact-head", "rule-head") and U.repeated_vars_both(T.tup(a), T.tup(b)):
+                    kfc = "|repeated-head-and-call-vars"
+                return viol("unify:%s:%s-succeeds%s" % (route, klass, kfc), "%s via %s succeeds with %s but the terms are %s" % (
                     pair, route, [str(x) for x in r[0]], {"no": "not unifiable", "occ": "unifiable only with a cyclic binding",
                                                          "occ_indirect": "unifiable only with a cyclic binding (cycle through two or more bindings)",
                                                          "no_or_occ": "not unifiable"}[klass]), sample=pair, n=n)
